@@ -652,7 +652,8 @@ class InventoryItem(InventoryNodeBase):
         if flavor == "ais":
             # There's little chance this differs from owner ID, just place it.
             val["agent_id"] = val["permissions"]["owner_id"]
-            if val["type"] == AssetType.LINK:
+            # `type` and `asset_id` are optional, the generic serializer leaves them out when unset
+            if val.get("type") == AssetType.LINK and "asset_id" in val:
                 # For link items, there is no asset, only a linked ID.
                 val["linked_id"] = val.pop("asset_id")
                 # These don't exist either
